@@ -6,5 +6,6 @@ func init() {
 	register("cms-replay", cmsrt.Replay)
 	register("cms-own", cmsrt.Own)
 	register("cms-pss", cmsrt.Pss)
+	register("cms-attrlen", cmsrt.AttrLen)
 	register("ts-legacy", cmsrt.Legacy)
 }
